@@ -10,6 +10,7 @@ when the armed call number is reached it raises the armed fault instead of perfo
 """
 import copy
 import fnmatch
+import os
 
 
 class Crash(BaseException):
@@ -45,6 +46,11 @@ class SimFS(object):
         self.reset()
 
     def reset(self):
+        for name in list(getattr(self, "files", {})) + [n for n in os.listdir(".") if n.endswith(".nc")]:
+            try:
+                os.remove(name)
+            except OSError:
+                pass
         self.files = {}
         self.handles = []          # every handle ever opened in this run, in creation order
         self.ncalls = 0            # storage calls in the current step
@@ -102,20 +108,56 @@ class SimFS(object):
             self.history[path] = []
             if path in self.files:
                 self.synced[path] = copy.deepcopy(self.files[path])
+        self.sync_markers()
 
     # -- namespace ------------------------------------------------------------------------
+    # Every simulated file is mirrored by an empty marker file of the same (relative) name in the private working
+    # directory of the process, so that library code calling the real os / glob sees the same namespace, and so
+    # that a file the library removes behind the store's back is gone for the store as well.
+    def created(self, path):
+        try:
+            open(path, "w").close()
+        except OSError:
+            pass
+
+    def _purge_if_unlinked(self, path):
+        if path in self.files and not os.path.exists(path):
+            del self.files[path]
+            self.history.pop(path, None)
+            self.synced.pop(path, None)
+
     def exists(self, path):
+        self._purge_if_unlinked(path)
         return path in self.files
 
     def remove(self, path):
+        self._purge_if_unlinked(path)
         if path not in self.files:
             raise FileNotFoundError(2, "No such file or directory", path)
         del self.files[path]          # open handles keep the unlinked image
         self.history.pop(path, None)
         self.synced.pop(path, None)
+        try:
+            os.remove(path)
+        except OSError:
+            pass
 
     def glob(self, pattern):
+        for p in list(self.files):
+            self._purge_if_unlinked(p)
         return sorted(p for p in self.files if fnmatch.fnmatchcase(p, pattern))
+
+    def sync_markers(self):
+        """After the store was rolled back (crash, dry-run restore): markers exist exactly for the files of the store."""
+        for n in os.listdir("."):
+            if n.endswith(".nc") and n not in self.files:
+                try:
+                    os.remove(n)
+                except OSError:
+                    pass
+        for p in self.files:
+            if not os.path.exists(p):
+                self.created(p)
 
     def open_handles(self, path=None):
         return [h for h in self.handles if not h._closed and (path is None or h._path == path)]
